@@ -425,6 +425,7 @@ def cifar_convert(case):
     # reference product: convert once without faults to learn the expected size/hash
     os.makedirs(work)
     final = 'federated_cifar100_%s.sqlite' % split
+    learned = []
 
     def run(flt):
       inj = CInjector(flt)
@@ -441,11 +442,22 @@ def cifar_convert(case):
       consts = dict(_TFF_SQLITE_COMPRESSED_NUM_BYTES=len(comp),
                     _TFF_SQLITE_COMPRESSED_HEXDIGEST=hashlib.sha256(comp).hexdigest(),
                     _parse_tf_examples=parse_seam)
+      dl_patch = {'log': lambda *a, **k: None}
       if case.get('expect'):
         consts['_FEDJAX_SQLITE_NUM_BYTES'] = {split: case['expect'][0]}
         consts['_FEDJAX_SQLITE_HEXDIGEST'] = {split: case['expect'][1]}
+      else:
+        # learning run: record what the conversion produced instead of validating it against the real dataset's constants
+        real_validate = downloads.validate_file
+
+        def recording_validate(path, n, h):
+          if str(path).endswith('.lzma'):
+            return real_validate(path, n, h)
+          with open(path, 'rb') as f:
+            learned.append(f.read())
+        dl_patch['validate_file'] = recording_validate
       try:
-        with seams.patched(cifar100, **consts), seams.patched(downloads, log=lambda *a, **k: None):
+        with seams.patched(cifar100, **consts), seams.patched(downloads, **dl_patch):
           try:
             fd = cifar100.load_split(split, cache_dir=work)
             ids = sorted(fd.client_ids())
@@ -463,11 +475,9 @@ def cifar_convert(case):
     if 'expect' not in case:
       # learn the size/hash of the complete product (validation constants of the real dataset do not apply)
       run(None)
-      produced = [os.path.join(work, n) for n in (final, final + '.partial') if os.path.exists(os.path.join(work, n))]
-      if not produced:
-        raise HarnessError('C19 cifar: the conversion produced no database at all')
-      with open(produced[0], 'rb') as f:
-        good = f.read()
+      if not learned:
+        raise HarnessError('C19 cifar: the conversion never asked to validate its product')
+      good = learned[-1]
       case = dict(case, expect=[len(good), hashlib.sha256(good).hexdigest()])
       shutil.rmtree(work)
       os.makedirs(work)
